@@ -15,8 +15,8 @@ Suspender.action is a two-state step on `aux.done` at entry:
      completed => exitAll(aux) ; reactivate(framer): actives is active.outline again and no enter/renter call is in
      the trace ("resume ... without being re-entered"), returns None; else returns the auxiliary, framer untouched.
 How the auxiliary completes: a `done` act of one of its frames sets aux.done during enterAll / segue / recur; the
-callee contracts of enterAll / recur do not model that (acts write no framer field), so aux.done is taken as an
-arbitrary truth value after those calls (weaker than the callee contracts: every completion branch is explored).
+callee contracts model that (.done of any framer may go False -> True across action acts; enterAll resets it first),
+so every completion branch is explored from the callee contracts alone.
 Suspender.deactivize (exit act of the main frame, added by Suspender._resolve): not done => exitAll + release
 ("if its main frame is exited first, the auxiliary is exited with it"); done => nothing.
 
@@ -54,8 +54,8 @@ N = "len(needs)"
 T = "len(self._tracts)"
 
 REG.assume_note("C10 Suspender.action: the conditional auxiliary's own operations (enterAll / recur / segue / exitAll on "
-                "`aux`) do not change the run fields of the framer that owns the main frame (instance of the no "
-                "re-entrancy assumption; the callee contracts of Framer.enterAll/recur/segue/exitAll over-approximate "
+                "`aux`) do not change the run fields of the framer that owns the main frame, except that its .done may "
+                "be set True by a `done` act (instance of the no re-entrancy assumption; the callee contracts of Framer.enterAll/recur/segue/exitAll over-approximate "
                 "'the framers below' by 'every other framer', so this fact is assumed at those four call sites)")
 
 
@@ -72,35 +72,31 @@ def _keep_before(E):
 
 
 def _keep_after(E):
-    """ASSUMED (no re-entrancy, announced above): the operation of the auxiliary left those fields alone"""
+    """ASSUMED (no re-entrancy, announced above): the operation of the auxiliary left those fields alone - except
+    .done, which a `done` act of the auxiliary may set True on any framer (monotone: False -> True)"""
     fr = E.frame.env["framer"]
     for key, srt, val in E.ghost["c10_keep"]:
-        E.assume(z3.Select(E.harr(key, [z3.IntSort()], srt), fr.t) == val)
-
-
-def _run_after(E):
-    """after aux.enterAll() / aux.recur(): the framer's fields are kept (above) AND the auxiliary may have completed.
-    The callee contracts say `not aux.done` after enterAll and keep aux.done across recur (acts are modelled as not
-    writing fields of the framer that runs them); a `done` act of the auxiliary (CompleteDone: framer.done = True, as
-    an enter or recur action) does exactly that, and it is how a conditional auxiliary completes.  Those two facts are
-    therefore NOT relied on here: aux.done is an arbitrary truth value after either call (a weakening of what is
-    assumed about the callees: both branches of `if aux.done:` are explored)."""
-    _keep_after(E)
-    E.wr_field(E.frame.env["aux"], "done", E.fresh_val("aux_done_after_run", BOOL))
+        cur = z3.Select(E.harr(key, [z3.IntSort()], srt), fr.t)
+        E.assume(z3.Implies(val, cur) if key == DONE_KEY else cur == val)
 
 
 AUX_OPS = ("aux.enterAll()", "aux.recur()", "aux.segue()", "self.deactivate(aux)")
-KEEP_HOOKS = {"before": {t: _keep_before for t in AUX_OPS},
-              "after": {t: (_run_after if t in ("aux.enterAll()", "aux.recur()") else _keep_after) for t in AUX_OPS}}
+KEEP_HOOKS = {"before": {t: _keep_before for t in AUX_OPS}, "after": {t: _keep_after for t in AUX_OPS}}
 
-UNCH_FR = ("{f}.actives is old({f}.actives) and seq_eq({f}.actives, oldlist({f}.actives)) and "
-           "{f}.active is old({f}.active) and {f}.human == old({f}.human) and {f}.done == old({f}.done) and "
-           "{f}.elapsed == old({f}.elapsed) and {f}.recurred == old({f}.recurred) and {f}.stamp == old({f}.stamp) and "
-           "{f}.status == old({f}.status) and {f}.desire == old({f}.desire) and {f}.main is old({f}.main)").format(f=FRM)
+# `{d}`: what is said about the framer's own .done: unchanged when only needs ran (refusal); once the auxiliary has run,
+# one of its acts may have been a `done` act naming the main framer: False -> True only
+_UNCH = ("{f}.actives is old({f}.actives) and seq_eq({f}.actives, oldlist({f}.actives)) and "
+         "{f}.active is old({f}.active) and {f}.human == old({f}.human) and {d} and "
+         "{f}.elapsed == old({f}.elapsed) and {f}.recurred == old({f}.recurred) and {f}.stamp == old({f}.stamp) and "
+         "{f}.status == old({f}.status) and {f}.desire == old({f}.desire) and {f}.main is old({f}.main)")
+DONE_SAME = "{f}.done == old({f}.done)".format(f=FRM)
+DONE_MONO = "implies(old({f}.done), {f}.done)".format(f=FRM)
+UNCH_FR = _UNCH.format(f=FRM, d=DONE_SAME)            # refusal: nothing but needs ran
+UNCH_FR_RAN = _UNCH.format(f=FRM, d=DONE_MONO)        # the auxiliary ran
 # everything of the framer but .actives / .human (the two things change()/reactivate() write)
-UNCH_FR_REST = ("{f}.active is old({f}.active) and {f}.done == old({f}.done) and {f}.elapsed == old({f}.elapsed) and "
+UNCH_FR_REST = ("{f}.active is old({f}.active) and {d} and {f}.elapsed == old({f}.elapsed) and "
                 "{f}.recurred == old({f}.recurred) and {f}.stamp == old({f}.stamp) and {f}.status == old({f}.status) "
-                "and {f}.desire == old({f}.desire) and {f}.main is old({f}.main)").format(f=FRM)
+                "and {f}.desire == old({f}.desire) and {f}.main is old({f}.main)").format(f=FRM, d=DONE_MONO)
 UNCH_AUX = ("aux.main is old(aux.main) and aux.done == old(aux.done) and aux.actives is old(aux.actives) and "
             "aux.active is old(aux.active)")
 EXITED = ("aux.done and len(aux.actives) == 0 and aux.active is None and implies(aux.original, aux.main is None)")
@@ -127,7 +123,7 @@ _C_ACTION = contract(FA, "Suspender.action", "C10,C05,C08",
          assumes=SUSP_ASSUMES,
          inline={(FA, "Suspender.deactivate")},
          ghost=KEEP_HOOKS,
-         modifies=[havoc_all_but(FRAMER_RUN_FIELDS, keep=[FRM], wf=[ACTIVES_OWNED]),
+         modifies=[framers_may_change(keep=[FRM]),
                    FRM + ".actives", FRM + ".human", FRM + ".humanShr.value",
                    "aux.humanShr.value", "aux.activeShr.value", "aux.elapsedShr.value", "aux.recurredShr.value"],
          loops={0: dict(inv=["ct_len() == _i",
@@ -141,7 +137,7 @@ _C_ACTION = contract(FA, "Suspender.action", "C10,C05,C08",
              # ---------------- (A) not running
              # falsy result (refused, or entered, run once and completed in that first run): the framer is untouched -
              # NOTHING is suspended - and the auxiliary is not running (which of the two: trace clauses below)
-             "implies(%s and result is None, aux.done and %s)" % (WAS_DONE, UNCH_FR),
+             "implies(%s and result is None, aux.done and %s)" % (WAS_DONE, UNCH_FR_RAN),
              # entered and run once, still running: the frames below main are cut off (C05: actives is main.head),
              # the auxiliary belongs to main iff it is an original, the result is truthy
              "implies(%s and result is not None, result is aux and not aux.done and %s.actives is main.head and "
@@ -152,7 +148,7 @@ _C_ACTION = contract(FA, "Suspender.action", "C10,C05,C08",
              "implies(not %s and result is None, %s and %s.actives is %s.active.outline and "
              "%s.human == %s.active.human and %s)" % (WAS_DONE, EXITED, FRM, FRM, FRM, FRM, UNCH_FR_REST),
              # still running: nothing of the framer changes (the frames below main stay suspended)
-             "implies(not %s and result is not None, result is aux and not aux.done and %s)" % (WAS_DONE, UNCH_FR),
+             "implies(not %s and result is not None, result is aux and not aux.done and %s)" % (WAS_DONE, UNCH_FR_RAN),
          ],
          local_ensures=[
              # ---------------- (A) refused (a need falsy / owned by another frame / start check refused): nothing
@@ -160,7 +156,7 @@ _C_ACTION = contract(FA, "Suspender.action", "C10,C05,C08",
              "implies(%s and ct_len() <= %s + 1, result is None and %s and %s)" % (WAS_DONE, N, UNCH_FR, UNCH_AUX),
              # entered and run once, completed in that first run: fully exited and released, nothing suspended
              "implies(%s and result is None, %s and implies(not aux.original, aux.main is old(aux.main)) and %s)"
-             % (ENTERED, EXITED, UNCH_FR),
+             % (ENTERED, EXITED, UNCH_FR_RAN),
              # the needs are evaluated in order, stopping at the first falsy one
              "implies(%s, forall(lambda j: implies(0 <= j and j < ct_len() and j < %s, ct_is(j, 'act', needs[j]))))"
              % (WAS_DONE, N),
